@@ -54,9 +54,16 @@ RULE = ("all interleavings of 2 logical threads (1-3 operations each; thorough a
         "metadata lists 0-3 signing certificates per issuer (current one first/middle/last/absent, retired RSA / EC / "
         "Ed25519 ones around it) judges every produced URL with parse_authn_request / parse_logout_request: accepted "
         "iff the caller's certificate is published; stream 'matrix': library verdict for (signature by X, certificate Y "
-        "of kind RSA / EC P-256 / Ed25519, verifier backend Z in {X, Y, third}) must be [X = Y]; non-trivial = some thread's "
+        "of kind RSA / EC P-256 / Ed25519, verifier backend Z in {X, Y, third}) must be [X = Y]; stream 'churn': 2-6 (60 "
+        "bases) and 30-70 (thorough: 30-200) short-lived entities per case over 3 keys -- Saml2Client / Server / "
+        "SecurityContext / bare RSACrypto set up from key files, used 0-2 times and DROPPED for real (the harness holds "
+        "one reference per logical thread; gc.collect() before or after the next one is constructed), entityids and "
+        "key-file paths re-used with other keys, 1-3 churning logical threads interleaved or on one OS thread, a "
+        "long-lived entity signing in between; a message handed over as an object instead of text (15% of the sign "
+        "operations of every stream); non-trivial = some thread's "
         "get_signer and its sign/verify are separated by another thread's action (model class interleaved|race), "
-        "or an OS thread serves several logical threads, or the preemption point was reached")
+        "or an OS thread serves several logical threads, or the preemption point was reached, or (churn) an entity was "
+        "dropped for real before a later one signed")
 TRUSTED = [
     "gate scheduler of harness/props/c20.py: serialises the logical threads at get_signer/sign/verify (all "
     "interleavings at call boundaries); in addition ONE preemption between any two statements of the library's "
@@ -223,7 +230,19 @@ def recv_destination(n):
     return RECV_SLO if recv_kind(n) == "logout" else RECV_SSO
 
 
+def msg_obj(n):
+    """the message handed over as an OBJECT (saml2.samlp.AuthnRequest), not as text: http_redirect_message renders
+    it itself (`message = f"{message}"`)"""
+    from saml2 import samlp
+
+    return samlp.AuthnRequest(id="id-c20-%d" % n, version="2.0", issue_instant="2026-09-21T18:13:20Z")
+
+
 def recv_msg_text(n, own, instant):
+    return recv_msg_obj(n, own, instant).to_string().decode("utf-8")
+
+
+def recv_msg_obj(n, own, instant):
     """a real AuthnRequest / LogoutRequest of the issuer the caller claims to be (its current entity)"""
     from saml2 import saml, samlp
 
@@ -236,7 +255,7 @@ def recv_msg_text(n, own, instant):
         msg = samlp.AuthnRequest(id="id-c20-%d" % n, version="2.0", issue_instant=instant, destination=RECV_SSO,
                                  issuer=issuer, protocol_binding=S.BINDING_POST,
                                  assertion_consumer_service_url="https://%s.c20.example/acs" % own.replace("_", "-"))
-    return msg.to_string().decode("utf-8")
+    return msg
 
 
 def make_receiver(published):
@@ -355,6 +374,10 @@ class _Abort(BaseException):
 
 class HarnessTimeout(RuntimeError):
     pass
+
+
+class _HarnessBug(BaseException):
+    """a case the harness cannot carry out (generator error): never mistaken for an outcome of the library"""
 
 
 class _Sched:
@@ -491,7 +514,29 @@ def _make_entity(key_file, cert_file, label, op, ent, env):
 
     how = op.get("how") or "fresh"
     cls = op.get("cls") or "sp"
+    kind = op.get("kind") or "entity"
+    if kind != "entity":
+        # lighter forms of "an entity with a signing key" (what a per-request front end or a test builds): only the
+        # SecurityContext of a configuration, or the bare signing backend of a key file; they sign through
+        # pack.http_redirect_message(backend=...) -- the model ignores `kind` like `how`
+        import saml2.sigver as sv
+
+        if kind == "crypto":
+            new = sv.RSACrypto(sv.import_rsa_key_from_file(key_file))
+        elif kind == "secctx":
+            from saml2.config import Config, IdPConfig, SPConfig
+
+            conf = {"sp": SPConfig, "idp": IdPConfig, "base": Config}[cls]()
+            conf.load(_minimal_dict(key_file, cert_file, label, "sp" if cls == "base" else cls))
+            new = sv.security_context(conf)
+        else:
+            raise _HarnessBug("unknown entity kind %r" % (kind,))
+        new._c20_cls = cls
+        new._c20_minimal = True
+        return new
     if how in ("copy", "deepcopy", "mutate"):
+        if not hasattr(ent, "config"):
+            raise _HarnessBug("set-up %r needs a full entity to derive the configuration from" % how)
         src = ent
         if how == "deepcopy" and not getattr(ent, "_c20_minimal", False):
             c0 = getattr(ent, "_c20_cls", None) or ("idp" if type(ent).__name__ == "Server" else "sp")
@@ -536,68 +581,105 @@ def _make_entity(key_file, cert_file, label, op, ent, env):
     return new
 
 
-def _do_op(op, ent, universe, env, own=None):
-    """-> (observable, entity the thread acts for afterwards); own = key name of the entity the thread acts for"""
+def _backend(ent):
+    """the signing backend of an entity in any of its forms: Saml2Client / Server (.sec.sec_backend),
+    SecurityContext (.sec_backend), bare RSACrypto"""
+    sec = getattr(ent, "sec", ent)
+    return getattr(sec, "sec_backend", sec)
+
+
+def _do_setup(op, cell, env):
+    """Entity set-up.  `cell` = the ONLY reference the harness holds to the entity the logical thread acts for (the
+    pre-built long-lived ones of `_ents` apart).  `drop`: "before" -- the thread lets go of its entity and the garbage
+    collector runs BEFORE the new one is constructed (a front end that builds an entity per request); "after" -- the
+    new one is constructed first, then the old one is released and collected (its memory is free for whichever
+    thread constructs an entity next); absent -- the old one simply stops being referenced when the cell is
+    overwritten (reference cycles keep it until some later collection)."""
+    import gc
+
+    # key roll-over / first use done by the deployment: the files at this path now hold `content`'s pair
+    kf = os.path.join(env["dir"], "p%d.key" % op["path"])
+    cf = os.path.join(env["dir"], "p%d.pem" % op["path"])
+    shutil.copyfile(S.key_path(op["content"]), kf)
+    shutil.copyfile(S.cert_path(op["content"]), cf)
+    env["n"] = env.get("n", 0) + 1
+    label = "e%d" % env["n"] if op.get("label") is None else "tenant%d" % op["label"]
+    drop = op.get("drop")
+    if drop == "before":
+        cell[0] = None
+        gc.collect()
+    try:
+        cell[0] = _make_entity(kf, cf, label, op, cell[0], env)
+    except Exception as e:
+        return {"r": "crash", "exc": type(e).__name__}
+    finally:
+        if drop == "after":
+            gc.collect()
+    return {"r": "setup"}
+
+
+def _do_op(op, cell, universe, env, own=None):
+    """-> observable; cell[0] = the entity the thread acts for (replaced by a set-up); own = its key name"""
     import saml2.sigver as sv
     from saml2 import pack
 
+    if op["op"] == "setup":
+        return _do_setup(op, cell, env)
+    ent = cell[0]
+    if ent is None:  # a set-up that had let go of the previous entity failed: the thread has no entity
+        return {"r": "crash", "exc": "NoEntity"}
+    return _do_call(op, ent, universe, env, own, sv, pack)
+
+
+def _do_call(op, ent, universe, env, own, sv, pack):
     if op["op"] == "sign":
         n, alg = op["msg"], op["alg"]
         recv = env.get("receiver") is not None
         response = bool(op.get("response")) and not recv
         typ = "SAMLResponse" if response else "SAMLRequest"
-        text = recv_msg_text(n, own, env["instant"]) if recv else msg_text(n)
+        message = text = recv_msg_text(n, own, env["instant"]) if recv else msg_text(n)
+        if op.get("form") == "obj":  # the caller hands over the message object; the text is what it renders to
+            message = recv_msg_obj(n, own, env["instant"]) if recv else msg_obj(n)
+            text = message.to_string().decode("utf-8")
         dest = recv_destination(n) if recv else destination(n)
         try:  # only the real call is inside the try: pysaml2 refuses with a bare Exception
-            if op.get("via") == "pack":
-                info = pack.http_redirect_message(text, dest, relay_state(n), typ, sigalg=alg,
-                                                  sign=True, backend=ent.sec.sec_backend)
+            if op.get("via") == "pack" or not hasattr(ent, "apply_binding"):
+                info = pack.http_redirect_message(message, dest, relay_state(n), typ, sigalg=alg,
+                                                  sign=True, backend=_backend(ent))
             else:
-                info = ent.apply_binding(S.BINDING_REDIRECT, text, dest, relay_state=relay_state(n),
+                info = ent.apply_binding(S.BINDING_REDIRECT, message, dest, relay_state=relay_state(n),
                                          response=response, sign=True, sigalg=alg)
         except Exception as e:
             if str(e).startswith(REFUSALS):
-                return {"r": "refused"}, ent
-            return {"r": "crash", "exc": type(e).__name__}, ent
+                return {"r": "refused"}
+            return {"r": "crash", "exc": type(e).__name__}
         url = dict(info["headers"])["Location"]
         verifiers, intact = check_url(url, typ, n, alg, universe, text, dest)
         ev = {"r": "sig", "verifiers": verifiers, "intact": intact}
         if recv:
             ev["_url"] = url  # judged by the receiver after the scheduled run (the receiving path is not gated)
-        return ev, ent
+        return ev
     if op["op"] == "verify":
         saml_msg = fixture(op)
         cert = S.cert_b64(op["cert"]) if op.get("cert") else None
         sigkey = privkey(op["sigkey"]) if op.get("sigkey") else None
         try:
-            ok = sv.verify_redirect_signature(saml_msg, ent.sec.sec_backend, cert, sigkey)
+            ok = sv.verify_redirect_signature(saml_msg, _backend(ent), cert, sigkey)
         except Exception as e:
-            return {"r": "crash", "exc": type(e).__name__}, ent
-        return {"r": "verified", "ok": bool(ok)}, ent
-    if op["op"] == "setup":
-        # key roll-over / first use done by the deployment: the files at this path now hold `content`'s pair
-        kf = os.path.join(env["dir"], "p%d.key" % op["path"])
-        cf = os.path.join(env["dir"], "p%d.pem" % op["path"])
-        shutil.copyfile(S.key_path(op["content"]), kf)
-        shutil.copyfile(S.cert_path(op["content"]), cf)
-        env["n"] = env.get("n", 0) + 1
-        try:
-            new = _make_entity(kf, cf, "e%d" % env["n"], op, ent, env)
-        except Exception as e:
-            return {"r": "crash", "exc": type(e).__name__}, ent
-        return {"r": "setup"}, new
+            return {"r": "crash", "exc": type(e).__name__}
+        return {"r": "verified", "ok": bool(ok)}
     raise ValueError("unknown op %r" % (op,))
 
 
 def _run_program(ctx, t, th, universe, events, env):
-    ent = entity(th["key"])
+    cell = [entity(th["key"])]  # the thread's one reference to the entity it acts for
     own = th["key"]
     for i, op in enumerate(th["prog"]):
         ctx.n = 0
         if op["op"] == "setup" and ctx.sched is not None:
             ctx.n = 1
             ctx.sched.arrive(t, "P")  # set-up touches no gate: it is carried out in an idle slot of its own
-        ev, ent = _do_op(op, ent, universe, env, own)
+        ev = _do_op(op, cell, universe, env, own)
         if op["op"] == "setup" and ev.get("r") == "setup":
             own = op["content"]
         if ctx.n == 0 and ctx.sched is not None:
@@ -911,8 +993,11 @@ class _Gen:
         rng = self.rng
         if alg is None:
             alg = rng.choice(GOOD_ALGS) if rng.random() < 0.85 else rng.choice(BAD_ALGS)
-        return {"op": "sign", "alg": alg, "msg": self.msg(), "via": rng.choice(["apply_binding", "apply_binding", "pack"]),
-                "response": rng.random() < 0.3}
+        op = {"op": "sign", "alg": alg, "msg": self.msg(), "via": rng.choice(["apply_binding", "apply_binding", "pack"]),
+              "response": rng.random() < 0.3}
+        if rng.random() < 0.15:
+            op["form"] = "obj"  # message handed over as an object (harness-only, like `via`: the model ignores it)
+        return op
 
     def verify(self, alg=None, own=None):
         rng = self.rng
@@ -1103,6 +1188,9 @@ def gen_cases(rng, tier):
 
     # ---- verify as the preempted operation (single and double preemption, with a verification history)
     yield from preempt_verify_cases(rng, g, thorough)
+
+    # ---- entity churn: short-lived entities created, used and dropped for real, over a few keys
+    yield from churn_cases(rng, g, tables, thorough)
 
 
 def _pool_schedules(rng, base, tables, limit):
@@ -1434,6 +1522,89 @@ def matrix_cases(rng, g, tables, thorough):
         yield from _with_schedules(base, interleavings(_counts(base, tables)))
 
 
+CHURN_KINDS = ["entity", "entity", "entity", "secctx", "crypto"]
+CHURN_DROPS = ["before", "before", "before", "after", "after", None]
+
+
+def _churn_program(rng, g, n_entities, keys, algs, labels, uniform=None):
+    """[set-up of a short-lived entity (key from `keys`, the previous one of the thread dropped), 0-2 uses] x n.
+    uniform = (kind, cls, drop) for every entity of the program (a front end building the same kind of object per
+    request), or None: drawn per entity."""
+    prog = []
+    last = None
+    for _ in range(n_entities):
+        content = rng.choice([k for k in keys if k != last] if (last is not None and rng.random() < 0.8) else keys)
+        last = content
+        kind, cls, drop = uniform or (rng.choice(CHURN_KINDS), rng.choice(["sp", "sp", "idp", "base"]),
+                                      rng.choice(CHURN_DROPS))
+        u = {"op": "setup", "path": rng.choice([1, 1, 2, 3]), "content": content, "how": "fresh", "cls": cls,
+             "kind": kind, "drop": drop}
+        if kind == "entity" and rng.random() < 0.15:
+            u["how"] = "file"
+        if rng.random() < 0.5:
+            u["label"] = rng.choice(labels)  # the same entityid again, by now with another key (tenant re-created)
+        prog.append(u)
+        for _ in range(rng.choice([1, 1, 1, 1, 2, 0])):
+            if rng.random() < 0.85:
+                op = g.sign(algs[0] if rng.random() < 0.8 else rng.choice(algs))
+                if kind != "entity":
+                    op["via"] = "pack"
+                prog.append(op)
+            else:  # the short-lived entity's backend verifies a genuine signature of one of the keys
+                prog.append(g.triple(rng.choice(algs), rng.choice(keys), rng.choice(keys)))
+    return prog
+
+
+def churn_cases(rng, g, tables, thorough):
+    """ENTITY CHURN inside a history: entities (Saml2Client / Server / SecurityContext / bare RSACrypto) are set up
+    from key files, used for signing (or not at all) and DROPPED for real -- the harness keeps no reference, the
+    garbage collector runs -- while later ones are set up with other keys: dozens per case over 3 keys, in one
+    logical thread, in 2-3 interleaved ones (own OS threads) and with several logical threads on one OS thread;
+    long-lived pre-built entities keep signing in between.  Every signature is checked against all certificates.
+    Process-wide state that outlives its entity (keyed by id(), a counter, entityid, key-file path, ...) shows as
+    a signature under a dropped entity's key."""
+    def one(n_threads, sizes, long_lived, same_worker, uniform=None):
+        g.ctr = rng.randrange(0, 400) * 10
+        keys = rng.sample(RSA_NAMES, 3)
+        algs = rng.sample(GOOD_ALGS, 2)
+        labels = [0, 1, 2]
+        threads = [{"key": rng.choice(ACTORS), "prog": _churn_program(rng, g, sizes[j], keys, algs, labels, uniform)}
+                   for j in range(n_threads)]
+        if long_lived:  # a pre-built entity of the deployment keeps working next to the short-lived ones
+            k = rng.choice(ACTORS)
+            threads.append({"key": k, "prog": [g.sign(algs[0]) for _ in range(rng.randint(2, 6))]})
+        base = {"threads": threads, "extra_keys": [k for k in keys] + rng.sample(BYSTANDERS, 1), "stream": "churn"}
+        if same_worker:
+            base["workers"] = [0] * len(threads)
+        return base
+
+    # small histories: 2-6 short-lived entities, many schedules
+    for _ in range(240 if thorough else 60):
+        n_threads = rng.choice([1, 1, 2, 2, 3])
+        sizes = [rng.randint(1, 3) if n_threads > 1 else rng.randint(2, 6) for _ in range(n_threads)]
+        uniform = None if rng.random() < 0.5 else (rng.choice(CHURN_KINDS), rng.choice(["sp", "idp"]),
+                                                   rng.choice(["before", "after"]))
+        base = one(n_threads, sizes, rng.random() < 0.3, False, uniform)
+        counts = _counts(base, tables)
+        yield from _with_schedules(base, [[]])
+        if len(base["threads"]) > 1:
+            yield from _with_schedules(base, _sample_schedules(rng, counts, 6 if thorough else 2))
+    # long histories: 30-200 short-lived entities per case
+    for j in range(40 if thorough else 12):
+        n_threads = [1, 2, 3, 1, 2, 3][j % 6]
+        total = rng.randint(30, 200 if thorough else 70)
+        cut = sorted(rng.sample(range(1, total), n_threads - 1))
+        sizes = [b - a for a, b in zip([0] + cut, cut + [total])]
+        uniform = None if j % 2 else (rng.choice(CHURN_KINDS), rng.choice(["sp", "idp"]), rng.choice(["before", "after"]))
+        same_worker = n_threads > 1 and j % 4 == 1
+        base = one(n_threads, sizes, rng.random() < 0.5, same_worker, uniform)
+        counts = _counts(base, tables)
+        if len(base["threads"]) == 1 or same_worker:
+            yield from _with_schedules(base, [[]])
+        else:
+            yield from _with_schedules(base, _sample_schedules(rng, counts, 1))
+
+
 # ------------------------------------------------------------------ verdict helpers
 
 
@@ -1454,6 +1625,8 @@ def nontrivial(case, impl, lean):
         return bool(impl.get("held"))
     if case.get("workers") is not None and len(set(case["workers"])) < len(case["workers"]):
         return True
+    if case.get("stream") == "churn":  # some entity was dropped for real before a later one signed
+        return any(op.get("drop") for th in case["threads"] for op in th["prog"] if op["op"] == "setup")
     return lean.get("class") in ("interleaved", "race")
 
 
@@ -1486,7 +1659,19 @@ def shrink(case):
     if len(ths) > 1:
         for i in range(len(ths)):
             yield _drop_thread(case, i)
+    for i, th in enumerate(ths):  # long (churn) programs: whole blocks first
+        n = len(th["prog"])
+        size = n // 2
+        while size >= 4:
+            for a in range(0, n, size):
+                c = dict(case)
+                c["threads"] = [dict(t, prog=t["prog"][:a] + t["prog"][a + size:]) if x == i else t
+                                for x, t in enumerate(ths)]
+                yield c
+            size //= 2
     for i, th in enumerate(ths):
+        if len(th["prog"]) > 40:  # a run of such a program takes seconds: blocks only until it is shorter
+            continue
         for j in range(len(th["prog"])):
             c = dict(case)
             c["threads"] = [dict(t, prog=[o for k, o in enumerate(t["prog"]) if k != j]) if x == i else t
